@@ -6,6 +6,8 @@ consequences named by the property checked on the real code (exactly, on Fractio
 """
 from __future__ import annotations
 
+import math
+
 import json
 from fractions import Fraction as F
 
@@ -102,6 +104,40 @@ def consequences(chk: Check, cases):
                           treatment=[[str(v) for v in r] for r in c["tt"]]))
 
 
+def float_affine(chk: Check, n):
+    """Float mode: replacing the covariate X by X + b with a LARGE offset b changes nothing (up to rounding).  In exact
+    arithmetic every algebraically equivalent pooling formula passes; a formula that subtracts quantities of size
+    mean^2 (sum of squares minus n*mean^2) fails here by many orders of magnitude."""
+    import numpy as np
+    import pyarrow as pa
+    import tea_tasting as tt
+    rng = np.random.default_rng(chk.seed + 66)
+    for k in range(n):
+        alt, ev, ut = analysis.CELLS[k % len(analysis.CELLS)]
+        nc, nt = int(rng.integers(20, 200)), int(rng.integers(20, 200))
+        x = rng.integers(0, 40, nc + nt).astype(float)             # integer-valued: x + b is exact
+        y = 0.5 * x + rng.normal(0, 3, nc + nt) + np.r_[np.zeros(nc), np.full(nt, 0.7)]
+        base = None
+        for b in (0.0, 100.0, 1e6, 1e7):
+            data = pa.table({"variant": [0] * nc + [1] * nt, "y": y, "x": x + b})
+            try:
+                r = tt.Mean("y", "x", alternative=alt, equal_var=ev, use_t=ut).analyze(data, 0, 1, "variant")
+            except Exception as ex:  # noqa: BLE001
+                chk.fail("analysis raised on plain float data", dict(offset=b, error=repr(ex)))
+                break
+            chk.case(("float-affine", alt, ev, ut, b))
+            chk.branch("float-affine-offset")
+            if base is None:
+                base = r
+                continue
+            for f in analysis.FIELDS:
+                u, v = float(getattr(base, f)), float(getattr(r, f))
+                if not (u == v or (math.isinf(u) and u == v) or abs(u - v) <= 1e-7 * max(abs(u), abs(v)) + 1e-12):
+                    chk.fail(f"float mode: adding {b:g} to the covariate changes field {f} far beyond rounding",
+                             dict(cell=[alt, ev, ut], offset=b, field=f, original=u, shifted=v, n=[nc, nt], seed=chk.seed, case=k))
+                    break
+
+
 def build(chk, n_per_kind, max_rows=14):
     cases = []
     i = 0
@@ -130,6 +166,7 @@ def main():
     if chk.tier == "thorough":
         run_cases(chk, build(chk, 60), family=2, with_gen=have_model, label="[family 2] ")
     consequences(chk, cases[:: 2 if chk.tier == "quick" else 1])
+    float_affine(chk, 12 if chk.tier == "quick" else 96)
     chk.cov["rule"] = ("random rational data sets (2..28 rows per variant, balanced and 1:many), metric kinds "
                        "Mean+covariate / ratio+numerator covariate / ratio+ratio covariate, covariate modes "
                        "noisy / independent / constant / exactly affine in the metric, all 12 option cells, random "
